@@ -62,11 +62,11 @@ def env_base():
 #   timeout  : seconds for the whole job
 # --------------------------------------------------------------------------
 
-def J(test, checks=None, shards=1, race=False, env=None, procs=None, timeout=900, count=1, shrink="20s", steps=None, par=None):
+def J(test, checks=None, shards=1, race=False, env=None, procs=None, timeout=900, count=1, shrink="20s", steps=None, par=None, fuzztime=None):
     # par: allowed number of concurrent processes for this property when its cases are mostly idle
     # (real-time waits such as the library's 1 s watch retry delay)
     return dict(test=test, checks=checks, shards=shards, race=race, env=env or {}, procs=procs,
-                timeout=timeout, count=count, shrink=shrink, steps=steps, par=par)
+                timeout=timeout, count=count, shrink=shrink, steps=steps, par=par, fuzztime=fuzztime)
 
 
 PROPS = {
@@ -183,21 +183,21 @@ PROPS = {
         rule="rapid state machine over the real cache actor (hook NewVerifCache): initial filter from a 12-filter family x sequences of sync/update/refilter over 4 keys, versions -2..40 plus malformed strings, 3 label values, lists with duplicates and malformed entries; after every operation List/Get are compared with the reference model. Plus the bounded-exhaustive universe of the property (2 keys x versions 0..5 x 2 labels x 4 filters: every single next operation from every reachable state; quick samples every 4th state). Non-trivial = the sequence contains an operation with an incoming version <= the cached one, or a filter rejecting a cached key, or a duplicate/malformed entry (enumeration: a non-empty state); distinct = hash of the rendered operation sequence / state.",
         assumptions=["the cache actor is driven through the add-only hook NewVerifCache (build tag verif)", "for keys occurring twice in one list or with non-numeric versions only the invariants are demanded (the statement names them only in its no-crash clause)", "a delete older than the cached version may have either outcome"],
         quick=[J("TestC01_Random", checks=4000, shards=6), J("TestC01_Enum", env={"VERIF_ENUM_STRIDE": "4"})],
-        thorough=[J("TestC01_Random", checks=25000, shards=12), J("TestC01_Enum", shards=4, timeout=1800)],
+        thorough=[J("TestC01_Random", checks=25000, shards=12), J("TestC01_Enum", shards=4, timeout=1800), J("FuzzC01", fuzztime="60s", timeout=600)],
     ),
     "C02": dict(
         level="exploration",
         rule="same generators as C01 (rapid state machine + bounded-exhaustive universe); oracle: the events returned by each mutation, replayed strictly (Create only if absent, Update only if present and strictly newer, Delete only if present) over the content read before the call give exactly the content read after it, by object identity, and an unchanged content comes with no event. Non-trivial = the sequence contains at least one operation that changes nothing and at least one that emits >= 2 events (enumeration: a non-empty state); distinct = hash of the rendered sequence / state.",
         assumptions=["the cache actor is driven through the add-only hook NewVerifCache (build tag verif)", "the tree-level part (a consumer mirroring a node by replaying its events never diverges) is exercised by the strict mirrors of the C03/C06 harness"],
         quick=[J("TestC02_Random", checks=4000, shards=6), J("TestC02_Enum", env={"VERIF_ENUM_STRIDE": "4"})],
-        thorough=[J("TestC02_Random", checks=25000, shards=12), J("TestC02_Enum", shards=4, timeout=1800)],
+        thorough=[J("TestC02_Random", checks=25000, shards=12), J("TestC02_Enum", shards=4, timeout=1800), J("FuzzC02", fuzztime="60s", timeout=600)],
     ),
     "C19": dict(
         level="exploration",
         rule="bounded-exhaustive: for each of the 7 workload kinds every source set of <=2 (thorough: <=3) workloads over 2 namespaces x selector variants {absent, empty, one label, two labels, In, NotIn, Exists} x template labels {absent, one label} against every pod over 2 namespaces x 9 label maps; every set of <=2 ingresses (default backend absent/empty/named x 0-3 paths) against 6 services; node/involved/selector-match filters over their argument universes against pods, services, events and foreign kinds; plus rapid-generated source sets (<=3 sources, 3 namespaces, 16 label maps). Oracle = reference ownership predicates. Non-trivial = sources in >1 namespace, or a source lacking a selector / using set-based requirements, or an ingress with >1 backend; distinct = distinct filter rendering.",
         assumptions=["workload sources have distinct namespace/name and non-empty namespaces", "PodsFilter is only asked about pods and ServicesFilter about services (the statement speaks of pods/services)"],
         quick=[J("TestC19_Enum"), J("TestC19_Random", checks=30000)],
-        thorough=[J("TestC19_Enum", shards=16), J("TestC19_Random", checks=200000, shards=8)],
+        thorough=[J("TestC19_Enum", shards=16), J("TestC19_Random", checks=200000, shards=8), J("FuzzC19", fuzztime="45s", timeout=600)],
     ),
     "C17": dict(
         level="exploration",
@@ -205,7 +205,7 @@ PROPS = {
         assumptions=["soundness is judged on the finite object universe (3 ns x 3 names x 16 label maps of pods, pods with node names, services with selectors, events, two foreign kinds)",
                      "workload sources have distinct namespace/name, as in a real cluster"],
         quick=[J("TestC17_Random", checks=30000), J("TestC17_Enum")],
-        thorough=[J("TestC17_Random", checks=200000, shards=16), J("TestC17_Enum", shards=16, timeout=1800)],
+        thorough=[J("TestC17_Random", checks=200000, shards=16), J("TestC17_Enum", shards=16, timeout=1800), J("FuzzC17", fuzztime="60s", timeout=600)],
     ),
     "C18": dict(
         level="exploration",
@@ -213,7 +213,7 @@ PROPS = {
         assumptions=["label keys/values restricted to the valid universe x,y / 1,2,3 (filter.LabelSelector panics on invalid selectors by contract)",
                      "NSName entries with both fields empty are outside the contract and never generated"],
         quick=[J("TestC18_Random", checks=40000), J("TestC18_Enum")],
-        thorough=[J("TestC18_Random", checks=150000, shards=16), J("TestC18_Enum", shards=16)],
+        thorough=[J("TestC18_Random", checks=150000, shards=16), J("TestC18_Enum", shards=16), J("FuzzC18", fuzztime="60s", timeout=600)],
     ),
 }
 
@@ -292,6 +292,13 @@ def run_jobs(prop, tier, jobs, seed, workdir, log):
         os.makedirs(cwd, exist_ok=True)
         args = [bins[j["race"]], f"-test.run=^{j['test']}$", f"-test.timeout={j['timeout']}s", f"-test.count={j['count']}"]
         rseed = seed_for(seed, prop, j["test"], s)
+        if j.get("fuzztime"):
+            # native coverage-guided fuzzing (thorough tier only): go builds its own instrumented binary;
+            # a campaign cannot be pinned to a seed, the saved failing input is the reproducible unit
+            args = ["go", "test", "-tags", "verif", "-vet=off", "-run", "^$", "-fuzz", f"^{j['test']}$", "-fuzztime", j["fuzztime"], "."]
+            if OVERRIDE:
+                args.insert(2, "-modfile=" + os.path.join(workdir, "override.mod"))
+            cwd = HARNESS
         if j["checks"] is not None:
             args += [f"-rapid.checks={j['checks']}", f"-rapid.seed={rseed}", f"-rapid.shrinktime={j['shrink']}"]
             if j.get("steps"):
@@ -410,6 +417,12 @@ def classify(r):
     m = REPLAY_RE.search(text)
     if m:
         return "violation", first_fail_line(text), m.group(2)
+    m = re.search(r"Failing input written to (\S+)", text)
+    if m:
+        ff = m.group(1)
+        if not os.path.isabs(ff):
+            ff = os.path.join(HARNESS, ff)
+        return "violation", first_fail_line(text), ff
     m = FAILFILE_RE.search(text)
     if m and "[rapid]" in text:
         ff = m.group(1)
@@ -496,6 +509,8 @@ def save_replay(prop, r, src):
         base = f"{prop}-{base}"
     dst = os.path.join(REPLAYS, base)
     shutil.copyfile(src, dst)
+    if os.path.abspath(src).startswith(os.path.join(HARNESS, "testdata", "fuzz")):
+        os.remove(src)  # do not leave the crasher in the seed corpus of later campaigns
     # side-car with the invocation, so that --replay can rebuild the exact run
     with open(dst + ".meta.json", "w") as f:
         json.dump({"property": prop, "test": r["job"]["test"], "env": r["job"]["env"], "race": r["job"]["race"],
@@ -528,6 +543,11 @@ def run_property(prop, tier):
             violations = []
             infra = []
             for r in results:
+                if r["job"].get("fuzztime"):
+                    ex = re.findall(r"execs: (\d+)", r["text"])
+                    if ex:
+                        stats["evaluations"] += int(ex[-1])
+                        stats["labels"]["native_fuzz_execs_" + r["job"]["test"]] = int(ex[-1])
                 kind, detail, src = classify(r)
                 if kind == "violation":
                     if src and os.path.exists(src):
@@ -577,9 +597,9 @@ def write_evidence(prop, tier, seed, cfg, stats, nviol, wall, results):
         "samples": stats["samples"],
         "nontrivial_total": stats["nontrivial_total"],
         "labels": stats["labels"],
-        "exhaustive": bool(stats["exhaustive"]) and all(j["checks"] is None for j in cfg[tier]),
+        "exhaustive": bool(stats["exhaustive"]) and all(j["checks"] is None and not j.get("fuzztime") for j in cfg[tier]),
         "exhaustive_subruns": stats["exhaustive"],
-        "jobs": [dict(test=j["test"], rapid_checks_per_shard=j["checks"], shards=j["shards"], race=j["race"], env=j["env"]) for j in cfg[tier]],
+        "jobs": [dict(test=j["test"], rapid_checks_per_shard=j["checks"], shards=j["shards"], race=j["race"], env=j["env"], native_fuzz_time=j.get("fuzztime")) for j in cfg[tier]],
         "processes": len(results),
         "known_findings_hit": stats["known"],
         "cases_excluded_as_known": stats["excluded"],
@@ -627,6 +647,19 @@ def replay(path):
                     e["VERIF_SHARD"] = d.get("shard", "0/1")
                 else:
                     e["VERIF_ONLY_CASE"] = d["case"]
+            elif (meta.get("test") or "").startswith("Fuzz"):
+                test = meta["test"]
+                d = os.path.join(HARNESS, "testdata", "fuzz", test)
+                os.makedirs(d, exist_ok=True)
+                name = "replay-" + os.path.basename(path)
+                shutil.copyfile(path, os.path.join(d, name))
+                r = subprocess.run(["go", "test", "-tags", "verif", "-vet=off", "-run", f"^{test}$/{name}", "-v", "."], cwd=HARNESS, env=e)
+                os.remove(os.path.join(d, name))
+                if r.returncode != 0:
+                    print(f"VIOLATION property={meta.get('property', '?')} replay={path}")
+                    return 1
+                print(f"replay of {path}: passed (not reproduced)")
+                return 0
             else:
                 test = meta.get("test") or os.path.basename(path).split("-")[1]
                 m = re.match(r"(?:C\d+-)?(Test[A-Za-z0-9_]+?)-\d{8}", os.path.basename(path))
